@@ -1222,8 +1222,15 @@ func (i *interpreter) toLowerASCII(s value) value {
 	i.ex.noteAssumption("strings.ToLower/EqualFold on symbolic strings: ASCII only, length <= " + fmt.Sprint(i.ex.bound("tolower.len", 24)))
 	maxLen := i.ex.bound("tolower.len", 24)
 	p.pc = append(p.pc, "(str.in_re "+ss.e+" (re.* (re.range \"\\u{0}\" \"\\u{7f}\")))")
-	if !i.branchAssume(p.mkIntCmp("<=", p.mkLen(ss), maxLen).(*Sym)) {
-		panic(pathEnd{reason: "assume"})
+	switch c := p.mkIntCmp("<=", p.mkLen(ss), maxLen).(type) {
+	case bool:
+		if !c {
+			panic(pathEnd{reason: "assume"})
+		}
+	case *Sym:
+		if !i.branchAssume(c) {
+			panic(pathEnd{reason: "assume"})
+		}
 	}
 	r := p.freshVar("lower", SStr)
 	p.pc = append(p.pc, "(= (str.len "+r.e+") (str.len "+ss.e+"))")
